@@ -418,6 +418,11 @@ def check_links(report: FullReport, hists: Dict[str, Dict[str, Any]], from_d: Op
     for asset in sorted(hists):
         model = Model(hists[asset])
         in_out_name = report.in_out_name(asset)
+        missing = [n for n in (in_out_name, report.tax_name(asset)) if n not in report.sheets]
+        if missing:
+            # the sheets every link of this asset must lead to (or start from) do not exist under their names
+            out.append(_v("links.asset-sheet-missing", asset=asset, missing=missing, sheets=sorted(report.sheets)[:12]))
+            continue
         in_out = report.sheets[in_out_name]
         tables = report.flow_tables(asset)
         table_of_row: Dict[int, str] = {}
